@@ -6,9 +6,11 @@ T2 (conformance)  trusted digit schema of "%d" formatting: "%d" % n is a non-emp
 T3 (conformance)  trusted sfnt-reload model used by the contract of _reloadFont: real compiled TTF / CFF / CFF2 fonts with
                   post 2.0 / 3.0: new object, nothing decompiled, same table set, same glyph order iff names are stored,
                   getGlyphOrder() afterwards decompiles name carriers only.
-N  (bounded)      PostProcessor._build_production_name on the generated-name path (string format/split/recursion are
-                  outside pyvc's fragment): against an independent statement of the naming rules, plus the ASSUMED
-                  call-site summary "no exception, no side effect, a str".
+T4 (conformance)  trusted models of str.rsplit(sep, 1) / str.split(sep, 1) / str.split(sep) / "{:04X}".format used when
+                  _build_production_name is executed symbolically (contracts/c11.py) against CPython.
+N  (bounded)      PostProcessor._build_production_name against an INDEPENDENT statement of the naming rules (the rules lib /
+                  uniXXXX / suffix / plain are also proved, contract `_build_production_name`; the two ligature rules are
+                  run-time only), plus "no exception, no side effect, a str" (also proved: safety + frame obligations).
 R  (bounded)      rename_glyphs on fonts with a 'CFF ' table (computed-key dict comprehension, outside the fragment):
                   charset and CharStrings keys rewritten with the same map, charstring objects untouched, and
                   process_glyph_names on CFF fonts: final names unique / legal / kept.
@@ -84,6 +86,31 @@ def _t2(rng, n):
         if not (s and all(c in "0123456789" for c in s) and int(s) == v):
             bad.append(v)
     return len(cases), bad
+
+
+def _t4(rng, n):
+    """trusted models of the str methods used by _build_production_name (contracts/c11.py `_c11_str_method`):
+    rsplit(sep, 1) / split(sep, 1): [s] without sep, else [a, b] with s == a + sep + b and sep not in b / a;
+    split(sep): >= 1 part, [s] without sep, >= 2 parts with it;  '{}{:04X}'.format(p, n) == p + '%04X' % n."""
+    bad, evals = [], 0
+    pools = ["ab._", "a", "._", "abc_.xyz-é", "_"]
+    cases = ["", ".", "_", "a", "a.b", "a.b.c", ".a", "a.", "..", "a_b", "a_b.c_d", "f_f_i.alt.ss01", "__", "a__b"]
+    while len(cases) < n:
+        cases.append("".join(rng.choice(rng.choice(pools)) for _ in range(rng.randint(0, 9))))
+    for s in cases:
+        for sep in (".", "_", "._"):
+            evals += 1
+            r, l, a = s.rsplit(sep, 1), s.split(sep, 1), s.split(sep)
+            ok = (r == [s] and l == [s] and a == [s]) if sep not in s else (
+                len(r) == 2 and s == r[0] + sep + r[1] and sep not in r[1] and len(l) == 2 and s == l[0] + sep + l[1] and sep not in l[0] and len(a) >= 2)
+            if not ok or len(a) < 1:
+                bad.append({"s": s, "sep": sep, "rsplit": r, "split1": l, "split": a})
+    for v in list(range(-3, 300)) + [0xFFF, 0x1000, 0xFFFF, 0x10000, 0x10FFFF] + [rng.randrange(0, 0x110000) for _ in range(min(n, 2000))]:
+        evals += 1
+        for p_ in ("u", "uni", ""):
+            if "{}{:04X}".format(p_, v) != p_ + "%04X" % v:
+                bad.append({"n": v, "prefix": p_})
+    return evals, bad
 
 
 # ---- N: naming rules, independent statement -------------------------------------------------------------------------
@@ -349,6 +376,7 @@ def c11_bounded(tier, seed):
     plan = [
         ("T1.regex-sub-conformance", _t1, 2500 if not thorough else 40000, "GLYPH_NAME_INVALID_CHARS.sub('', s) vs its trusted model, generated strings"),
         ("T2.percent-d-digits", _t2, 3000 if not thorough else 60000, "'%d' % n is a digit string, n in 0..1999, powers of ten, random up to 10^30"),
+        ("T4.str-method-models", _t4, 400 if not thorough else 6000, "trusted models of str.rsplit(sep,1) / split(sep,1) / split(sep) / '{:04X}'.format vs CPython, generated strings and code points"),
         ("T3.sfnt-reload-model", _t3, 15 if not thorough else 120, "trusted model of the sfnt round trip behind _reloadFont: name sets x {TTF,CFF,CFF2} x post {2.0,3.0,as compiled}"),
         ("N.build_production_name-rules", _n, 150 if not thorough else 4000, "_build_production_name vs the naming rules (independent statement) + no exception + no side effect, generated name sets"),
         ("R.cff-rename", _r, 40 if not thorough else 600, "rename_glyphs / process_glyph_names on 'CFF ' fonts: charset and CharStrings rewritten with one map, names unique/legal/kept"),
